@@ -245,6 +245,7 @@ class AreaMonitor(Monitor):
                 ctx.probe("split")
         if len(now) == len(self.prev or []) and set(now) == set(self.prev or []):
             ctx.probe("extend_only_step")
+        self.check_assignment(sim, fixed_only=True)
 
     def check_tiling(self, sim, when):
         ctx, c = sim.ctx, sim.cfg
@@ -298,9 +299,32 @@ class AreaMonitor(Monitor):
             P.append(tuple(p))
         return sorted(set(P))
 
-    def check_assignment(self, sim):
+    def fixed_points(self, sim):
+        """A point set that depends on the run only, not on the step: dyadic lattice points (shared faces and corners of
+        areas at every depth) and interior points. The same coordinates are asked for after every evaluation and every
+        refinement step, so an answer remembered from an earlier tree shows."""
+        c = sim.cfg
+        P = []
+        for k in range(self.npoints):
+            p = []
+            for d in range(c["dim"]):
+                u = H(sim.rk, "fp", k, d)
+                a, b = c["a"][d], c["b"][d]
+                if k % 2 == 0:
+                    x = a + (b - a) * int(u * 17) / 16.0
+                else:
+                    x = a + (b - a) * (0.01 + 0.98 * H(sim.rk, "fpi", k, d))
+                p.append(x)
+            P.append(tuple(p))
+        return sorted(set(P))
+
+    def check_assignment(self, sim, fixed_only=False):
+        if not fixed_only:
+            self._check_assignment(sim, self.seeded_points(sim))
+        self._check_assignment(sim, self.fixed_points(sim))
+
+    def _check_assignment(self, sim, P):
         ctx = sim.ctx
-        P = self.seeded_points(sim)
         leafids = set(id(o) for o in sim.leaves())
         res = sim.sa.get_points_assignement_to_areas(list(P))
         seen = {}
